@@ -77,7 +77,8 @@ class Step(Family):
                         continue
                     if kind == "gridded" and k == "reshape" and d.startswith("recreate:") and d != "recreate:LinearFixedRFA":
                         continue
-                    out.append({"L": L, "kind": kind, "opkind": k, "d": d})
+                    # two unrelated symbolic grids: keep the other-range state one point shorter (orderings multiply)
+                    out.append({"L": 3 if kind == "reshaped-other-range" else L, "kind": kind, "opkind": k, "d": d})
         return out
 
     def run(self, ctx, inst, L, kind, opkind, d):
@@ -141,7 +142,8 @@ class Restore(Family):
         out = []
         follow = [("domain", d) for d in domain_ops("quick") if d["op"] in ("shift_y", "scale_y", "append_one_sample", "repeat", "truncate_by_index")]
         follow += [("reshape", r) for r in ("recreate:LinearFixedRFA", "integral_match", "trend", "interpolate:n")]
-        follow = follow if tier != "quick" else follow[::2] + [("reshape", "integral_match")]
+        # (smooth / noise would draw independent stub values for the two objects and are not comparable)
+        follow += [("reshape", "trend:normalized")]
         for kind in ("tracked", "reshaped"):
             for (k, d) in follow:
                 out.append({"L": 3 if kind == "reshaped" else 4, "kind": kind, "opkind": k, "d": d})
